@@ -194,7 +194,7 @@ func runC03Seq(src sim.Source, o Opts, res *Result) {
 			snap(fmt.Sprintf("before step %d", step), w.R, nil, committed)
 		}
 		if src.Intn("txnstep", 3) == 2 {
-			t := genTxnProg(src, pool, methods3, &nextTag, 6, 5)
+			t := genTxnProgHint(src, pool, methods3, &nextTag, 6, 5, committed, cfg)
 			history = append(history, t.String())
 			private := committed.Clone()
 			snapAt := -2
@@ -234,7 +234,11 @@ func runC03Seq(src sim.Source, o Opts, res *Result) {
 			}
 		} else {
 			nextTag++
-			op := genWOp(src, pool, methods3, nextTag, false, 5)
+			hint := genHint{last: -1}
+			if src.Intn("biasedop", 4) != 0 {
+				hint.set = committed
+			}
+			op := genWOpHint(src, pool, methods3, nextTag, false, 5, hint)
 			history = append(history, op.String())
 			want := applyModel(committed, cfg, pool, op)
 			out := applyFox(w, w.R, pool, op)
